@@ -33,6 +33,8 @@ def run(ctx):
     from . import findings2 as _f2
     _f2.categorical_partition_labels(ctx, 'R8.10')
     r89(ctx, ut)
+    from . import append_route as _ar8
+    _ar8.compat_checks_rule(ctx, 'R8.14')     # an append names the partition columns the dataset has (a text means one column)
     from . import append_route as _ar, c09 as _c09, c14 as _c14b
     _ar.fresh_part_rule(ctx, 'R8.11')
     _c09.r97(ctx, wr)
